@@ -2277,8 +2277,11 @@ def c01_special(tier, rng, hooks):
     new_sites, cur = A.panic_site_audit()
     cov["panic_sites_in_source"] = len(cur)
     cov["panic_sites_unknown_to_model"] = new_sites
-    if new_sites and not fails:
-        fails.append({"why": "the source has potential panic sites the model does not know (tools/panic_sites.json): %s" % new_sites[:5], "has_input": False, "kind": "obligation-broken"})
+    new_arith, cur_arith = A.arithmetic_site_audit()
+    cov["arithmetic_sites_in_source"] = len(cur_arith)
+    cov["arithmetic_sites_unknown_to_model"] = new_arith
+    if (new_sites or new_arith) and not fails:
+        fails.append({"why": "the source has potential panic / overflow sites the model does not know (tools/panic_sites.json, tools/arithmetic_sites.json): %s" % (new_sites + new_arith)[:5], "has_input": False, "kind": "obligation-broken"})
     return {"failures": fails, "coverage": cov}
 
 
